@@ -158,6 +158,9 @@ func (c06) Exec(ctx *core.Ctx, cs *core.Case) {
 	if base == "" {
 		return
 	}
+	if (len(base)+len(ref))%8 == 3 {
+		interfereCase(ctx, ref, base, true) // parsers with other configurations resolved the same pair just before
+	}
 	b, berr, pan := parseImpl(ctx, nil, base, "", false, false)
 	if pan != nil {
 		ctx.Count("base_panics(C02)")
